@@ -192,6 +192,14 @@ def run(repo: Repo, chk: Check) -> None:
         bad = [(p.outcome, vrepr(p.value), p.cond_repr()) for p in res if not (p.outcome == 'return' and _is_b58(p.value, 'H', n, k.encode()))]
         chk.ob('R-DISPATCH', upk.qualname, not bad and bool(res), f'reads back {k}', upk.loc, {'wrong_paths': bad[:3]},
                what=f'optimized {k} is not read back as {k}: {bad[:2]}')
+    # the typed value is built through KeyType.from_value, which asks is_public_key: every kind the codec reads back must be in its prefix list
+    from ..validators import validator_prefixes as _vp
+    accepted = _vp(repo, 'is_public_key')
+    chk.require(accepted is not None, 'prefix list of is_public_key not found')
+    isk = repo.func('pytezos.crypto.encoding.is_public_key')
+    for k in REF_KEY:
+        chk.ob('R-TABLE', isk.qualname, k.encode() in accepted, f'{k} is accepted as a public key', isk.loc, {'accepted': [a.decode() for a in accepted]},
+               what=f'is_public_key does not list {k}: the optimized form of such a key is read back by unforge_public_key but refused by KeyType.from_value, so it does not survive binary form')
     res = Interp(repo, CodecHooks(rows + [(b'zzpk', 54, b'\x01\x02\x03\x04', 32, 'x')], kind='zzpk'), max_depth=2).run_function(
         fpk, [Sym('value', 'str')])
     chk.ob('R-PATH', fpk.qualname, all(p.outcome == 'raise' for p in res), 'unknown kind rejected', fpk.loc,
